@@ -1,7 +1,8 @@
 (* Executable entry points for the C14 correspondence shards (the `adlt` binary vs Convert/Select.v).
    One case = one invocation of `adlt convert`.
    Input: the files (canonical path number, number of messages inside the first 512 KiB, messages as
-   (uid, ecu, reception time us, timestamp us, verdict of every filter of the filter vector)), the file
+   (uid, ecu, reception time us, timestamp us, has timestamp, is control request, verdict of every filter of
+   the filter vector)), the file
    arguments (None: a name that cannot be opened), the options.
    Observation of the implementation:  T [L status; T baseline; T screen; file; listing]
      baseline : uids in the order of `adlt convert -s <same file arguments>` (the unfiltered, numbered input)
@@ -16,14 +17,14 @@ From AdltV Require Import Base.Obs Base.Res Base.MachInt Merge.Multi Filter.Sets
 Import ListNotations.
 Open Scope N_scope.
 
-Definition raw_msg := (N * N * N * N * list bool)%type.
+Definition raw_msg := (N * N * N * N * bool * bool * list bool)%type.
 Definition raw_file := (N * N * list raw_msg)%type.
 Definition raw_opts := (N * N * list N * list (N * bool) * bool * N * bool)%type.
 Definition case_C14 := (list raw_file * list (option N) * raw_opts)%type.
 
 Definition mk_cmsg (t : raw_msg) : cmsg :=
-  let '(uid, e, rt, ts, fv) := t in
-  mkc {| m_index := 0; m_ecu := e; m_rt := rt; m_ts := ts; m_has_ts := true; m_creq := false; m_lc := 0 |} uid fv.
+  let '(uid, e, rt, ts, has_ts, creq, fv) := t in
+  mkc {| m_index := 0; m_ecu := e; m_rt := rt; m_ts := ts; m_has_ts := has_ts; m_creq := creq; m_lc := 0 |} uid fv.
 Definition mk_file (t : raw_file) : file :=
   let '(p, scan, ms) := t in mkf p (N.to_nat scan) (map mk_cmsg ms).
 Definition mk_args (files : list file) (args : list (option N)) : list arg :=
